@@ -324,6 +324,11 @@ def direct_oracle(ck, case, out, label):
         if n not in perms:
             perms[n] = numpy_perm(n)
         return perms[n]
+    bad = [r for r in out if r[4] != r[4] or abs(r[4]) == float('inf')]
+    if bad:
+        ck.violation('%s: %d output bin(s) have a log2 that is not a finite number' % (label, len(bad)), case,
+                     code=[list(r) for r in bad[:5]], clause='C04_constant_shift')
+        return False
     outd = {(r[0], r[1], r[2]): r for r in out}
     for part in ('target', 'anti'):
         rows, z, applied = expected_core(case, part, perm_by_n)
@@ -643,6 +648,77 @@ def check_invariances(ck, cases, outs):
             ck.violation('output changes when the reference rows are permuted', dict(case, ref_permuted=r2),
                          code=o3[:5] if not isinstance(o3, Err) else o3, expected=out[:5],
                          clause='C04_perm_invariance')
+
+
+def check_history(ck, cases, outs, limit):
+    """do_fix answers from its arguments alone: after one call with a reference object R, a second call with a
+    reference DERIVED from R the way a program would (copy() / as_dataframe() of an edited frame, or R edited in
+    place: a bin blacklisted through its spread, log2 values moved, a bin removed) must give what fresh objects
+    built from the same rows give.  (GenomicArray.copy/as_dataframe/__getitem__ copy `meta` shallowly, so anything
+    cached there is shared between the two references.)"""
+    from cnvlib import fix
+    rng = ck.rng
+    done = 0
+    for case, out in zip(cases, outs):
+        if done >= limit:
+            break
+        if isinstance(out, Err) or len(case['ref']) < 4 or not case['target']:
+            continue
+        done += 1
+        R = cna([rrow_tuple(case, r) for r in case['ref']], rcols(case))
+        kw = dict(do_gc=case['do_gc'], do_edge=case['do_edge'], do_rmask=case['do_rmask'], do_cluster=False,
+                  smoothing_window_fraction=case['frac'])
+        def sample():
+            return (cna([srow_tuple(case, r) for r in case['target']], scols(case)),
+                    cna([srow_tuple(case, r) for r in case['anti']], scols(case)))
+        try:
+            t, a = sample()
+            fix.do_fix(t, a, R, **kw)
+        except (ValueError, AssertionError):
+            continue
+        how = rng.choice(['copy-edit', 'as_dataframe', 'in-place', 'subset'])
+        ref2 = [list(r) for r in case['ref']]
+        used = {(r[0], r[1], r[2]) for r in case['target'] + case['anti']}
+        idx = [i for i, r in enumerate(ref2) if (r[0], r[1], r[2]) in used]
+        i0 = rng.choice(idx)
+        if how == 'subset':
+            # drop one reference bin the sample does NOT use (same answer) or one it uses (must be refused)
+            unused = [i for i, r in enumerate(ref2) if (r[0], r[1], r[2]) not in used]
+            drop = rng.choice(unused) if unused and rng.random() < 0.5 else i0
+            ref2 = [r for i, r in enumerate(ref2) if i != drop]
+        else:
+            ref2[i0][8] = 2.0                                   # blacklist one used bin through its spread
+            for i in idx:
+                if i != i0 and rng.random() < 0.5:
+                    ref2[i][4] = ref2[i][4] + 0.25              # and move some reference log2 values
+        frame = pd.DataFrame([rrow_tuple(case, r) for r in ref2], columns=rcols(case))
+        if how == 'copy-edit':
+            R2 = R.copy(); R2.data = frame
+        elif how == 'in-place':
+            R2 = R; R2.data = frame
+        elif how == 'subset':
+            keep = [tuple(r[:3]) in {tuple(x[:3]) for x in ref2} for r in case['ref']]
+            R2 = R[np.array(keep)]
+        else:
+            R2 = R.as_dataframe(frame)
+        t, a = sample()
+        try:
+            o = fix.do_fix(t, a, R2, **kw).data
+            got = [(str(c), int(s), int(e), str(g), float(l), float(w))
+                   for c, s, e, g, l, w in zip(o['chromosome'], o['start'], o['end'], o['gene'], o['log2'], o['weight'])]
+        except ValueError as e:
+            got = Err('ValueError: ' + str(e).split('\n')[0][:60])
+        except AssertionError:
+            got = Err('Assertion')
+        fresh = run_code(dict(case, ref=ref2))
+        ck.count(['history', how], nontrivial=True, cls='history:' + how)
+        same = (isinstance(got, Err) and isinstance(fresh, Err) and got.msg[:10] == fresh.msg[:10]) or \
+               (not isinstance(got, Err) and not isinstance(fresh, Err) and same_output(got, fresh))
+        if not same:
+            ck.violation('do_fix with a reference derived (%s) from one used in an earlier call does not give what fresh '
+                         'objects with the same rows give' % how, dict(case, second_reference=ref2, derived_by=how),
+                         code=got[:5] if not isinstance(got, Err) else got,
+                         expected=fresh[:5] if not isinstance(fresh, Err) else fresh, clause='C04_bins/C04_errors (matched by coordinates of the reference GIVEN)')
 
 
 def check_sample_permutation(ck, cases, outs, limit):
@@ -979,6 +1055,7 @@ def run(ck, scratch):
         outs = check_pipeline(ck, cases, 'valid')
         check_invariances(ck, cases[: (12 if quick else 40)], outs)
         check_sample_permutation(ck, cases, outs, limit=(3 if quick else 10))
+        check_history(ck, cases, outs, limit=(4 if quick else 12))
         if total == 0 or not quick:
             check_cli(ck, scratch, cases, outs, limit=(2 if quick else 3))
         total += len(cases)
